@@ -439,6 +439,9 @@ pub struct C12Case {
     /// Maximum, judged by the reference session model
     #[serde(default)]
     pub history: Option<crate::sim::Scenario>,
+    /// variation of the connection prologue (see `connect_and_run_v`)
+    #[serde(default)]
+    pub prologue: u8,
 }
 
 pub struct C12;
@@ -477,11 +480,11 @@ fn c12_op() -> BoxedStrategy<OpSpec> {
 
 const C12_R: u16 = 2;
 
-fn c12_world(m: Option<u32>, client_max: Option<u32>) -> Result<World, String> {
+fn c12_world(m: Option<u32>, client_max: Option<u32>, prologue: u8) -> Result<World, String> {
     let mut w = World::new();
     let connack = rc::Connack { maximum_packet_size: m, receive_maximum: Some(C12_R), ..Default::default() };
     let spec = ConnectSpec { maximum_packet_size: client_max, ..Default::default() };
-    connect_and_run(&mut w, spec, &connack, &WritePlan::default())?;
+    connect_and_run_v(&mut w, spec, &connack, &WritePlan::default(), prologue)?;
     Ok(w)
 }
 
@@ -502,11 +505,12 @@ impl Property for C12 {
                 1 => Just(MChoice::Absent),
             ],
         )
-            .prop_map(|(op, m)| C12Case { op, m, client_max: None, history: None })
+            .prop_map(|(op, m)| C12Case { op, m, client_max: None, history: None, prologue: 0 })
             .boxed();
-        let single = (s, prop_oneof![2 => Just(None), 1 => (8u32..64).prop_map(Some), 1 => Just(Some(1u32))])
-            .prop_map(|(mut c, cm)| {
+        let single = (s, prop_oneof![2 => Just(None), 1 => (8u32..64).prop_map(Some), 1 => Just(Some(1u32))], prologue_variant())
+            .prop_map(|(mut c, cm, pv)| {
                 c.client_max = cm;
+                c.prologue = pv;
                 c
             })
             .boxed();
@@ -518,12 +522,13 @@ impl Property for C12 {
             8 => start(vec![(1, OpKind::Pub0), (2, OpKind::Pub1), (2, OpKind::Pub2), (4, OpKind::Sub(0)), (3, OpKind::Unsub(0)), (1, OpKind::Ping)]),
             5 => ack(deco()),
         ];
-        let hist = (rm_small(), 12u32..44, proptest::collection::vec(ev, 1..40), prop_oneof![3 => Just(0u32), 1 => 250u32..300])
-            .prop_map(|(receive_max, m, events, id_offset): (Option<u16>, u32, Vec<Ev>, u32)| C12Case {
+        let hist = (rm_small(), 12u32..44, proptest::collection::vec(ev, 1..40), prop_oneof![3 => Just(0u32), 1 => 250u32..300], prologue_variant())
+            .prop_map(|(receive_max, m, events, id_offset, prologue): (Option<u16>, u32, Vec<Ev>, u32, u8)| C12Case {
                 op: OpSpec::Ping,
                 m: MChoice::Absent,
                 client_max: None,
-                history: Some(Scenario { receive_max, max_packet_size: Some(m), id_offset, events }),
+                prologue: 0,
+                history: Some(Scenario { receive_max, max_packet_size: Some(m), id_offset, prologue, events }),
             });
         prop_oneof![3 => single, 1 => hist].boxed()
     }
@@ -552,7 +557,7 @@ impl Property for C12 {
         }
         let plan = WritePlan::default();
         // (1) measure L
-        let mut a = match c12_world(None, None) {
+        let mut a = match c12_world(None, None, 0) {
             Ok(w) => w,
             Err(e) => return Outcome::fail("HARNESS/prologue", e),
         };
@@ -585,7 +590,7 @@ impl Property for C12 {
         o.class(case.op.kind());
         o.class(format!("L-{}", match l { 0..=127 => "<=127", 128..=16383 => "<=16383", _ => ">16383" }));
         // (2) the same request under M
-        let mut w = match c12_world(m, case.client_max) {
+        let mut w = match c12_world(m, case.client_max, case.prologue) {
             Ok(w) => w,
             Err(e) => return Outcome::fail("HARNESS/prologue", e),
         };
